@@ -188,8 +188,8 @@ def replay_record(rp: dict, level=1):
                                 extra={'deckcards': sorted(pk.card_int(c) for c in st.deck), 'variant': spec['variant']})
     rec['create'] = {'out': 'ok', 'post': play.observe(st, 0), 'micro': mic}
     for call in rp['calls']:
-        probes = [play.probe(st, op, a, werr) for op, a in walk.probe_universe(st, rng, level)]
-        ev = play.step(st, call['op'], call['a'], werr, probes)
+        probes, psame = play.probes(st, walk.probe_universe(st, rng, level), werr)
+        ev = play.step(st, call['op'], call['a'], werr, probes, psame=psame)
         rec['steps'].append(ev)
         if ev['out'].startswith('Other:'):
             break
